@@ -76,7 +76,7 @@ CHECKS = {
         "modules": ["rules_c06"],
         "explanation": 'Must-pass-through (edge dominance) on the MIR CFG of the three per-line entry points of ExecutionEngine: every call into the select/aggregate/join engines and every write through self is dominated by the true edge of the branch on Row::any_result() applied (provenance-checked) to the row that TableDefinition::extract returned for this line; who-may-call rule for extract; structural check of the admission predicate (any_result body; NOT NULL cut in extract clears the row on every path from the cut edge; NULL test applied after DEFAULT substitution); join file routed through the same entry; LIMIT counter written only in update_limit.',
         "trusted": ["rustc nightly MIR + trait resolution", "dependencies behave as documented"],
-        "technique": 'static must-pass-through / edge-dominance analysis on MIR CFGs, who-may-call over the resolved call graph, path rule on the NOT NULL cut',
+        "technique": 'static must-pass-through / edge-dominance analysis on MIR CFGs (helper functions inlined), effect (inert-field) analysis, who-may-call over the resolved call graph, path enumeration of the admission predicate and the NOT NULL cut',
         "level_text": 'Decides the structural clause: no path lets a non-admitted line reach engine state, and the admission predicate has the stated shape; the behavioural invariance under noise insertion follows given purity of extraction (C01). Exhaustive over all paths of the anchored functions.',
         "level_note": 'Trusted: MIR of the nightly front end; extraction purity (C01.pure); pure-callee list in rules_c06.py.',
     },
@@ -92,7 +92,7 @@ CHECKS = {
         "modules": ["rules_c19"],
         "explanation": 'CFG rules on the MIR of FileExecutor::execute, FollowFileExecutor::execute and JoinedTableData::execute: the AtomicBool::load of the running flag (receiver provenance-checked) lies after the line is read, its running==true edge dominates ExecutionEngine::execute and OutputPrinter::print of that line, from its false edge no input-consuming call is reachable, the interrupt path constructs no Err and still passes the final aggregate result/print; constant extraction of the sampling interval in the join loader (<= 10); who-may-write enumeration of all atomic stores in lib and bin.',
         "trusted": ["rustc nightly MIR + trait resolution", "dependencies behave as documented"],
-        "technique": 'static edge-dominance, reachability and who-may-write rules on MIR',
+        "technique": 'static path-fact (path-sensitive guard) analysis, reachability and who-may-write rules on MIR with local helpers inlined',
         "level_text": 'Decides where the flag is sampled relative to reading/executing/printing on every path, and who writes it. Signal timing and the prefix relation are not decided.',
         "level_note": 'Trusted: MIR of the nightly front end; SeqCst atomics behave as documented.',
     },
@@ -116,7 +116,7 @@ CHECKS = {
         "modules": ["rules_c08"],
         "explanation": 'Must-pass-through rules on the MIR of SelectExecutionEngine::execute and AggregateExecutionEngine::execute_result: every emission (Row::new / push of a result Row) is reachable only through the distinct==false edge or the DistinctValues::add(..)==true edge (edge-cut reachability, so a test nested under HAVING is detected), a duplicate is never emitted, the tuple tested is the tuple emitted (provenance), the aggregate DISTINCT memory is local to one result table; DistinctValues::add is contains-then-insert on a HashSet whose element type (resolved generic argument) is the whole Vec<Value> tuple and returns false/true accordingly.',
         "trusted": ["rustc nightly MIR + trait resolution", "dependencies behave as documented"],
-        "technique": 'static edge-cut reachability (must-pass-through), provenance and resolved-type rules on MIR',
+        "technique": 'static path-fact analysis (every path to an emission satisfies distinct==false or add()==true), must-pass-through, provenance and resolved-type rules on MIR with local helpers inlined',
         "level_text": "Decides the structural clauses of DISTINCT (where the test sits, what it is applied to, what the set stores). Value equality itself is C16's subject.",
         "level_note": 'Trusted: std HashSet semantics; MIR of the nightly front end.',
     },
@@ -132,7 +132,7 @@ CHECKS = {
         "modules": ["rules_c17"],
         "explanation": "Path counting and arm-table rules on MIR: over all acyclic paths of the row loop of OutputPrinter::print the number of Printer::println calls is exactly 1 (0+2 on the CSV first-line edge), after the loop at most one separator guarded by multiple_rows && !single_result; first_line typestate (constructor true, cleared on every row path, single reader); in the three format closures the value index is the unmodified enumerate index; Value::json_value arm table (variant -> JSON kind, no coercing cast, no wildcard, recursion on array elements); records serialised by serde_json::to_string on a Map and the preserve_order feature read from Cargo.toml; FileExecutor prints each line's result at most once.",
         "trusted": ["rustc nightly MIR + trait resolution", "dependencies behave as documented"],
-        "technique": 'static path counting over acyclic MIR paths, arm-table extraction, provenance of indexes, build-configuration check',
+        "technique": 'static path counting over acyclic MIR paths, path-fact guard analysis, variant-to-JSON-kind table from path facts, provenance of indexes, build-configuration check (MIR with local helpers inlined)',
         "level_text": 'Decides record multiplicity, header typestate, name/value pairing and the JSON kind mapping on every path. Number/escape fidelity inside serde_json and Display formats are not decided.',
         "level_note": 'Trusted: serde_json serialisation; MIR of the nightly front end.',
     },
@@ -140,7 +140,7 @@ CHECKS = {
         "modules": ["rules_c13"],
         "explanation": "Constant and shape extraction from the MIR of the table-driven parser: the (operator, precedence) pairs of BinaryOperators::new (operator aggregate and BinaryOperator::new argument of each insert call) and the constants returned per token variant by Parser::get_token_precedence are checked against the property's ordering chain; the climbing loop's two comparisons are '<' and the right operand is parsed at token_precedence + 1; the constant levels at which parse_unary_operator parses the operands of NOT and unary minus lie in the required intervals of the extracted table; every construction of Operator::Dual in the tokenizer is dominated by a test that constrains the second character; the IN arms have no ExpectedTuple rejection.",
         "trusted": ["rustc nightly MIR + trait resolution", "dependencies behave as documented"],
-        "technique": 'static constant extraction and guard-dominance rules on MIR of the tokenizer/parser tables',
+        "technique": 'static constant extraction through path facts, semantic normalisation of the two precedence comparisons, edge-cut reachability and arm-table rules on MIR of the tokenizer / parser',
         "level_text": 'Decides that the precedence tables, the climbing loop and the prefix levels realise the stated precedence and associativity, and that operator fusion is constrained. That table-driven climbing equals the reference grammar given a correct table is the standard result, not re-proved.',
         "level_note": 'Trusted: MIR of the nightly front end.',
     },
@@ -180,7 +180,7 @@ CHECKS = {
         "modules": ["rules_c05"],
         "explanation": 'Rules on the MIR of join.rs and the converter: error discipline (results of File::open, get_table, index_for and the per-line execute reach the caller through Try::branch/FromResidual and are not swallowed by ok()/unwrap_or); the join index insert and lookup are dominated by a NOT NULL test of the key; in execute_join every partner row yields exactly one execute call and one merge on every path back to the loop header (path counting), the loop is left early only by error returns, partners are traversed as a plain slice of a Vec<Row> bucket; the OUTER row is vec![NULL; number of joined columns] on the no-partner arm under is_outer && allow_outer; transform_join maps both ON orientations consistently (field provenance of the two JoinClause constructions).',
         "trusted": ["rustc nightly MIR + trait resolution", "dependencies behave as documented"],
-        "technique": 'static error-discipline (swallowed-result) analysis, guard dominance, path counting and field-provenance rules on MIR',
+        "technique": 'static error-discipline (swallowed-result) analysis, path-fact guard analysis, path counting, key-provenance (lossy conversion) and field-type rules on MIR with local helpers inlined',
         "level_text": 'Decides the structural clauses of the join mechanism (errors reported, NULL keys excluded, every pair executed and merged once in file order, outer row shape, side mapping). The resulting set of pairs as values is not computed.',
         "level_note": 'Trusted: std HashMap/Vec semantics; MIR of the nightly front end.',
     },
